@@ -656,3 +656,39 @@ def run_C17(ctx):
 
 
 RUNNERS["C17"] = run_C17
+
+
+# ------------------------------------------------------------------ C18 (virtual and partitioned arrays)
+VIRT_OPS = ('{[op |-> "length"], [op |-> "type"], [op |-> "tojson"], [op |-> "at", i |-> 0], [op |-> "at", i |-> -1], '
+            '[op |-> "range", a |-> 1, b |-> 3], [op |-> "range_lazy", a |-> 0, b |-> 2], [op |-> "num", axis |-> 0], [op |-> "carry"], [op |-> "validity"]}')
+
+
+def run_C18(ctx):
+    ctx.build("opt")
+    q = ctx.quick()
+    vc = dict(CacheKinds='{"none", "keep", "evict_always"}', GenModes='{"ok", "short", "wrongform", "raises", "raise_first"}',
+              Decls='{[len |-> 0, form |-> 0], [len |-> 1, form |-> 0], [len |-> 0, form |-> 1], [len |-> 1, form |-> 1]}',
+              Ops=VIRT_OPS, MaxSteps=str(3 if q else 4), EmitOn="TRUE")
+    kw = dict(init="VInit", next_="VNext", view="VView", action_constraints=["VEmit"],
+              translate=("virtual", "steps_virtual"), judge_fn=("virtual", "judge_virtual"))
+    ctx.tlc_phase("virtual-interleavings", "Virtual", vc, invariants=["LazyUntilNeeded", "KeepGeneratesOnce", "NoStale", "HeldOnlyIfKeep"],
+                  properties=["ErrorKeepsCache"], require_actions=["Choose", "Do", "Evict"],
+                  sample_cases=(120000 if q else None), **kw)
+    vc["MaxSteps"] = "9"
+    kw["view"] = None
+    ctx.tlc_phase("virtual-simulate", "Virtual", vc, invariants=["LazyUntilNeeded", "KeepGeneratesOnce", "NoStale", "HeldOnlyIfKeep"],
+                  simulate="num=%d" % (5000 if q else 200000), depth=12, **kw)
+    pc = dict(PartN=str(3 if q else 4), PartMax="3", MaxSteps=str(2 if q else 3), EmitOn="TRUE")
+    ctx.tlc_phase("partitions-all-splittings", "Partition", pc, invariants=["LocateInRange", "Tiling"], init="PInit", next_="PNext",
+                  view="PView", action_constraints=["PEmit"], translate=("virtual", "steps_partition"),
+                  judge_fn=("virtual", "judge_partition"), require_actions=["ChooseSplit", "At", "Range", "Repartition"],
+                  sample_cases=(150000 if q else None))
+    return ctx.finish(rule="case = one behaviour: (cache kind, generator behaviour, declarations) + an interleaving of operations and evictions on "
+                           "a VirtualArray (alone or as the content of a list node), or one splitting + operations/repartitionings of an "
+                           "IrregularlyPartitionedArray; every observation is compared with the eager / whole array and generator calls with the spec",
+                      assumptions=["the Python bindings of the cache and generator (src/python/virtual.cpp) cannot be compiled; the C++ classes are "
+                                   "driven with harness-owned ArrayGenerator / ArrayCache subclasses",
+                                   "a generator returning MORE than the declared length is not modelled (accepted by design: contents may be longer)"])
+
+
+RUNNERS["C18"] = run_C18
